@@ -142,7 +142,8 @@ def createPromiseChild (promiseCmd : CreatePromiseCmd) (taskCmd : Option CreateT
   .yield [.router (promiseOfCreate promiseCmd)] fun _ cpls =>
     match cpls with
     | [rc] =>
-      if taskCmd.isSome && (routeFailed rc || (routeOf rc).isNone) then k (.error S_PROMISE_RECV_NOT_FOUND)
+      if routeFailed rc then k (.error S_AIO_MATCH)
+      else if taskCmd.isSome && (routeOf rc).isNone then k (.error S_PROMISE_RECV_NOT_FOUND)
       else childStore promiseCmd (childTask promiseCmd taskCmd (routeOf rc)) extra k
     | _ => .panic "createPromise: malformed router completion"
 
@@ -576,11 +577,13 @@ def schedulePromises (env : Env) (t0 : Time) : Co :=
           .yield (items.map fun (pc, _) => .router (promiseOfCreate pc)) fun _ rcs =>
             if rcs.length != items.length then .panic "schedulePromises: malformed router completions"
             else
-              let txs : List Subm := (items.zip rcs).map fun ((pc, upd), rc) =>
+              -- a child whose router submission failed returns an error: nothing is written for it this cycle
+              let txs : List Subm := ((items.zip rcs).filter fun (_, rc) => !routeFailed rc).map fun ((pc, upd), rc) =>
                 match rc with
                 | .router true recv =>
                   .store [.createPromiseAndTask { promiseCommand := pc, taskCommand := { id := invokeId pc.id, recv := recv, mesg := { type := "invoke", root := pc.id, leaf := pc.id }, timeout := pc.timeout, processId := none, state := T_INIT, ttl := 0, expiresAt := 0, createdOn := pc.createdOn } }, upd]
                 | _ => .store [.createPromise pc, upd]
+              if txs.isEmpty then .done none else
               .yield txs fun _ scs =>
                 -- the child's own assertions; the parent only logs the affected-row count
                 if scs.any (fun c => match c with
